@@ -395,7 +395,7 @@ def run(ctx: Ctx):
         for f in sorted((common.REPO / "tests" / "parsers" / "example_files").glob("sp3*")):
             ctx.count("example-file")
             one_file(ctx, impl, drv, {"text": f.read_text(), "recs": [], "meta": {}}, corpus=True)
-        for _ in range(ctx.budget(120, 300)):   # thorough: full-size files (~1000 records each, ~1 s per file)
+        for _ in range(ctx.budget(350, 300)):   # thorough: full-size files (~1000 records each, ~1 s per file)
             one_file(ctx, impl, drv, gen_file(rng, quick))
         if ctx.thorough:                          # plus many small ones
             for _ in range(1200):
